@@ -402,9 +402,12 @@ class DeckRun:
                 prs.slide_layouts[99]
             return "notRejected"
         elif op == "save":
-            b = io.BytesIO()
-            prs.save(b)
-            self.last_saved = b.getvalue()
+            # an object with a life: every "save" of a history goes to the SAME stream the caller holds (never rewound or truncated by the
+            # caller); what the stream holds afterwards is the saved file that is judged
+            if getattr(self, "stream", None) is None:
+                self.stream = io.BytesIO()
+            prs.save(self.stream)
+            self.last_saved = self.stream.getvalue()
         elif op == "reopen":
             b = io.BytesIO()
             prs.save(b)
